@@ -88,8 +88,8 @@ fn fault_kind(wire: Wire, stall: bool) -> BoxedStrategy<Fault> {
         ]
         .boxed(),
         Wire::Grpc => prop_oneof![
-            3 => (1u8..=16).prop_map(Fault::GrpcStatus),
-            2 => (1u8..=16).prop_map(Fault::GrpcTrailersOnly),
+            3 => grpc_code().prop_map(Fault::GrpcStatus),
+            2 => grpc_code().prop_map(Fault::GrpcTrailersOnly),
             2 => prop::sample::select(vec![301u16, 302, 307, 308, 429, 502, 503]).prop_map(Fault::Status),
             2 => Just(Fault::CloseBeforeRead),
             2 => Just(Fault::ReadThenClose),
@@ -159,6 +159,11 @@ fn stream(wire: Wire, family: Family, thorough: bool) -> BoxedStrategy<Stream> {
             .boxed(),
         Family::Drop => sizes.prop_map(|sizes_kib| Stream { sizes_kib, faults: vec![] }).boxed(),
     }
+}
+
+/// a non-zero gRPC status; the collector derives the grpc-message text from it (2, 7, 11, 16: text ending in a raw `%`)
+fn grpc_code() -> impl Strategy<Value = u8> {
+    prop_oneof![3 => 1u8..=16, 1 => Just(2u8), 1 => Just(7u8), 1 => Just(8u8)]
 }
 
 fn scenario(wire: Wire, family: Family, thorough: bool) -> BoxedStrategy<Scenario> {
@@ -243,8 +248,8 @@ fn exhaust_case(wire: Wire) -> BoxedStrategy<c12::exhaust::Exhaust> {
     // every attempt of batch A fails the same cheap way (11 attempts: no stalls here)
     let fault_a = match wire {
         Wire::Grpc => prop_oneof![
-            (1u8..=16).prop_map(Fault::GrpcStatus),
-            (1u8..=16).prop_map(Fault::GrpcTrailersOnly),
+            grpc_code().prop_map(Fault::GrpcStatus),
+            grpc_code().prop_map(Fault::GrpcTrailersOnly),
             prop::sample::select(vec![429u16, 503]).prop_map(Fault::Status),
             Just(Fault::CloseBeforeRead),
             Just(Fault::ReadThenClose),
@@ -310,6 +315,7 @@ fn main() {
             s.require("gzip:off", if quick { 100 } else { 4000 });
             s.require("request:gzip-body-still>64KiB-compressed", if quick { 50 } else { 2000 });
             s.require("encodings:signals-of-one-emitter-in-different-encodings", if quick { 20 } else { 800 });
+            s.require("fault:grpc-message-ends-with-a-raw-percent-sign", if quick { 2 } else { 100 });
             for f in ["status-5xx", "status-4xx", "close-before-read", "read-then-close", "grpc-status", "grpc-trailers-only-status", "grpc-http-status", "ack-then-close"] {
                 s.require(&format!("fault:{f}"), if quick { 4 } else { 200 });
             }
